@@ -1,7 +1,7 @@
 #!/bin/bash
 # tools/confirm_seed.sh <Cnn> <a|b>: confirm a seeded change in its scratch worktree /tmp/wt/Cnn
 # (suite passes with it, demonstration fails with it and passes without) and copy it to /verif/seeded.
-id=$1; v=$2; wt=/tmp/wt/$id; sd=$wt/SEED/$v
+id=$1; v=$2; wt=${WT:-/tmp/wt}/$id; sd=$wt/SEED/$v
 cd $wt || exit 2
 export CARGO_NET_OFFLINE=true
 git checkout -q -- . 2>/dev/null; rm -f tests/seed_demo.rs
